@@ -728,12 +728,13 @@ static void json_str(FILE *f, const char *s)
         fputc('"', f);
 }
 bool ABORT_ON_VIOL;
+unsigned QUERY_PM; static prng_t q;      /* api_queries(): q is reseeded for every case */
 void verif_case_reset(void);
 static void case_reset(void)
 {
         cur_failed = false; CUR_STEP = 0; PHASE = 0; READ_GATE = true;
         ON_READ = NULL; ON_READ_REFUSED = NULL; ON_WRITE = NULL; ON_UNIT = NULL; ON_PHASE = NULL; ON_LOCK = NULL; ON_LOCK_WAIT = NULL;
-        POLICY = NULL; VPOLICY = NULL; NEXT_WORLD_USE_MUTEX = false; NOISE_CMD = NULL; NOISE_PM = 0;
+        POLICY = NULL; VPOLICY = NULL; NEXT_WORLD_USE_MUTEX = false; NOISE_CMD = NULL; NOISE_PM = 0; QUERY_PM = 0; pr_seed(&q, CUR_SEED ^ 0x5155, (uint64_t)CUR_CASE);
         MX_DEPTH = 0; MX_LOCKS = MX_UNLOCKS = 0; MX_FAIL_LOCK_AT = MX_FAIL_UNLOCK_AT = -1;
         sch_eager(&RS); sch_eager(&WS);
         in_reset(); out_reset(); units_reset(); ev_reset();
@@ -896,9 +897,24 @@ void w_noise_group(unsigned per_mille)
         NOISE_CMD = a; NOISE_PM = per_mille;
         pr_seed(&NZ, CUR_SEED ^ 0x4E5A, (uint64_t)CUR_CASE);
 }
+/* the read-only part of the public API (lookups by name, busy / hold / queue queries) may be called between any two service calls: it must not disturb the parser */
+void api_queries(void)
+{
+        const struct cat_command *c = W.cmd[pr_n(&q, (unsigned)W.ncmds)];
+        switch (pr_n(&q, 8)) {
+        case 0: case 1: case 2: { const struct cat_command *f = cat_search_command_by_name(W.at, c->name); if (f == NULL || strcmp(f->name, c->name) != 0) viol("C03", "lookup-returned-wrong-command", "cat_search_command_by_name(\"%s\") returned %s", c->name, f ? f->name : "NULL"); } break;
+        case 3: (void)cat_search_command_by_name(W.at, "+NO-SUCH"); (void)cat_search_command_group_by_name(W.at, "none"); break;
+        case 4: if (c->var_num) { const char *vn = c->var[pr_n(&q, (unsigned)c->var_num)].name; (void)cat_search_variable_by_name(W.at, c, vn ? vn : "x"); } break;
+        case 5: (void)cat_is_busy(W.at); (void)cat_is_hold(W.at); break;
+        case 6: (void)cat_is_unsolicited_buffer_full(W.at); (void)cat_is_unsolicited_event_buffered(W.at, c, CAT_CMD_TYPE_READ); break;
+        default: { cat_fsm_type t = pr_n(&q, 2) ? CAT_FSM_TYPE_ATCMD : CAT_FSM_TYPE_UNSOLICITED; (void)cat_get_processed_command(W.at, t); } break;
+        }
+        CNT("api_queries_between_service_calls");
+}
 long run_quiet(long maxsteps)
 {
         for (long i = 0; i < maxsteps; i++) {
+                if (QUERY_PM && pr_n(&q, 1000) < QUERY_PM) api_queries();
                 if (NOISE_CMD && NOISE_PM && INPOS < INLEN && pr_n(&NZ, 1000) < NOISE_PM) { (void)cat_trigger_unsolicited_event(W.at, NOISE_CMD, pr_pct(&NZ, 60) ? CAT_CMD_TYPE_READ : CAT_CMD_TYPE_TEST); CNT("noise_events_triggered"); }
                 cat_status s = svc();
                 if (s == CAT_STATUS_OK && INPOS >= INLEN) return i + 1;
